@@ -57,6 +57,11 @@ func (g *Gen) genFrozen(n int) error {
 			g.oneHitRemergeCase()
 			continue
 		}
+		if i == 38 && g.dumpfiles {
+			// a doc-value field without any value in the middle chunk, built and merged, both dumped
+			g.sparseDvMergeCase()
+			continue
+		}
 		m := chunkModes[i%len(chunkModes)]
 		g.curMode = m
 		g.emit("cfg chunkmode=%d", m)
